@@ -426,6 +426,30 @@ func (x *Exec) evalPseudo(name string, n *ast.CallExpr, st *State, env *Env) (Va
 	case "itoa":
 		v := x.defaultType(x.eval(n.Args[0], st, env))
 		return Val{T: app("gs.itoa", v.T), Ty: tString}, true
+	case "nfields", "fieldat": // strings.Fields(s): number of fields / the j-th field (the model's own functions)
+		v := x.eval(n.Args[0], st, env)
+		x.c.declare("gs.nfields", "(declare-fun gs.nfields (Str) Int)")
+		x.c.declare("gs.fields", "(declare-fun gs.fields (Str) (Array Int Str))")
+		x.c.declare("gs.nfields.ax", "(assert (forall ((s Str)) (! (>= (gs.nfields s) 0) :pattern ((gs.nfields s)))))")
+		if name == "nfields" {
+			return Val{T: app("gs.nfields", v.T), Ty: tInt}, true
+		}
+		j := x.defaultType(x.eval(n.Args[1], st, env))
+		return Val{T: app("select", app("gs.fields", v.T), j.T), Ty: tString}, true
+	case "atoi": // the value strconv.Atoi returns for s (the same uninterpreted function the code's call is modelled by)
+		v := x.eval(n.Args[0], st, env)
+		return Val{T: app("gs.atoi", v.T), Ty: tInt}, true
+	case "splitn", "splitat": // strings.Split(s, sep): number of parts / the j-th part (the model's own functions)
+		v := x.eval(n.Args[0], st, env)
+		sep := x.eval(n.Args[1], st, env)
+		x.c.declare("gs.nsplit", "(declare-fun gs.nsplit (Str Str) Int)")
+		x.c.declare("gs.split", "(declare-fun gs.split (Str Str) (Array Int Str))")
+		x.c.declare("gs.nsplit.ax", "(assert (forall ((s Str) (p Str)) (! (>= (gs.nsplit s p) 1) :pattern ((gs.nsplit s p)))))")
+		if name == "splitn" {
+			return Val{T: app("gs.nsplit", v.T, sep.T), Ty: tInt}, true
+		}
+		j := x.defaultType(x.eval(n.Args[2], st, env))
+		return Val{T: app("select", app("gs.split", v.T, sep.T), j.T), Ty: tString}, true
 	case "fmtfloat":
 		v := x.defaultType(x.eval(n.Args[0], st, env))
 		return Val{T: app("gs.fmtfloat", v.T), Ty: tString}, true
